@@ -160,3 +160,44 @@ def jsonFloat (bits : Nat) : Bytes :=
   else fmtF neg ds dp
 
 end Refmt.FloatText
+
+namespace Refmt.FloatText
+
+/-- `float32(f)` for a float64 bit pattern, returned as the float64 bits of the rounded value
+    (round to nearest even; overflow to ±Inf; NaN stays NaN, quieted). -/
+def narrowF32 (bits : Nat) : Nat :=
+  let sign := bits / 9223372036854775808
+  let abs := bits % 9223372036854775808
+  let ex := abs / p52
+  if ex == 2047 then
+    (if abs % p52 == 0 then bits else sign * 9223372036854775808 + 0x7ff8000000000000 + (abs % p52) / 536870912 * 536870912 % 2251799813685248)
+  else if abs == 0 then bits
+  else
+    let (m, e) := decompose abs          -- value = m * 2^e
+    -- round m * 2^e to 24 significant bits (or to a multiple of 2^-149 for subnormals)
+    let blen := bitLen m
+    let topExp : Int := e + (blen : Int) - 1          -- floor(log2 value)
+    let sh : Int := if topExp < -126 then (-149 - e) else ((blen : Int) - 24)   -- drop `sh` low bits of m
+    let m' : Nat :=
+      if sh ≤ 0 then m * 2 ^ (-sh).toNat
+      else
+        let d := 2 ^ sh.toNat
+        let q := m / d
+        let r := m % d
+        if 2 * r > d || (2 * r == d && q % 2 == 1) then q + 1 else q
+    let e' : Int := if sh ≤ 0 then e + sh else e + sh
+    if m' == 0 then sign * 9223372036854775808
+    else
+      -- value' = m' * 2^e'; overflow if ≥ 2^128
+      let top : Int := e' + (bitLen m' : Int) - 1
+      if top ≥ 128 then sign * 9223372036854775808 + 0x7ff0000000000000
+      else
+        -- exact float64 of m' * 2^e' (always representable)
+        let r := roundRat (if e' ≥ 0 then m' * 2 ^ e'.toNat else m') (if e' ≥ 0 then 1 else 2 ^ (-e').toNat)
+        sign * 9223372036854775808 + r.1
+
+/-- `float64(i)` for an integer (round to nearest even) -/
+def intToF64 (i : Int) : Nat :=
+  if i ≥ 0 then (roundRat i.toNat 1).1 else 9223372036854775808 + (roundRat (-i).toNat 1).1
+
+end Refmt.FloatText
